@@ -926,6 +926,11 @@ class Fxp():
 
         """
 
+        if index is not None and isinstance(self.val, np.ndarray) and self.val.ndim > 0 and np.size(self.val[index]) == 0:
+            # a write through an empty selection (x[1:1] = v, an all-False mask): nothing is stored, so nothing is rounded,
+            # nothing overflows and no callback is due
+            return self
+
         # convert input value to valid format
         val, original_vdtype, raw = self._format_inupt_val(val, raw=raw)
 
